@@ -1,7 +1,7 @@
 (* C15 — property theorems only. Each is closed by `exact <lemma>` and followed by Print Assumptions. *)
 From Coq Require Import ZArith List Permutation Lia.
-From GeosV.C15 Require Import STRDefs STRProofs STRHistory STRSize GenPreludeSTR STRGen.
-From GeosV.Gen Require Import STR_sliceCount STR_sliceCapacity STR_treeSize.
+From GeosV.C15 Require Import STRDefs STRProofs STRHistory STRSize GenPreludeSTR STRGen GenPreludeITV ITVDefs ITVProofs.
+From GeosV.Gen Require Import STR_sliceCount STR_sliceCapacity STR_treeSize ITV_intersects ITV_branchBounds ITV_compare.
 Import ListNotations.
 Local Open Scope Z_scope.
 
@@ -76,3 +76,38 @@ Example ex_run : run_top 2 ex_ops =
   [ONone; ONone; ONone; ONone; ONone; OItems [1; 3; 5; 2]; OBool true; OItems [1; 5; 2]; OItems [1; 5; 4; 2];
    ONear (Some (1, 5)); OBool false].
 Proof. vm_compute. reflexivity. Qed.
+
+(* ---- the 1-D packed interval R-tree (SortedPackedIntervalRTree), one of the property's "other indexes" ----
+   tie G: the pruning test, the bounds a branch node takes from its two children and the sort key are REGENERATED from
+   IntervalRTreeNode.h / IntervalRTreeBranchNode.h on every run; the model adds buildLevel / buildTree / the recursive query. *)
+
+(* the generated pruning test is the closed-interval intersection test; the generated branch bounds are the hull of the children *)
+Theorem C15_interval_units_generated :
+  (forall lo hi qlo qhi, g_itv_intersects (mkItv lo hi) qlo qhi = ((lo <=? qhi) && (qlo <=? hi))%bool) /\
+  (forall a b, g_itv_branchBounds a b = (Z.min (f_min a) (f_min b), Z.max (f_max a) (f_max b))).
+Proof. exact (conj gen_intersects_spec gen_branchBounds_spec). Qed.
+Print Assumptions C15_interval_units_generated.
+
+(* buildTree terminates on every non-empty input (the fuel = number of leaves is never exhausted), the tree is well formed
+   (every branch's bounds contain both children's) and holds exactly the leaves, in order *)
+Theorem C15_interval_build_terminates : forall sorted, sorted <> [] ->
+  exists t, build_sorted sorted = Some t /\ WFI t /\ ileaves t = sorted.
+Proof. exact itv_build_terminates. Qed.
+Print Assumptions C15_interval_build_terminates.
+
+(* for EVERY order std::sort may leave the leaves in, the query visits exactly the items whose interval meets the query
+   interval, each once: never a miss, never a non-matching item *)
+Theorem C15_interval_query_exact : forall leaves sorted qlo qhi, leaves <> [] -> Permutation leaves sorted ->
+  exists t, build_sorted sorted = Some t /\ Permutation (iquery_root qlo qhi (Some t)) (itv_spec qlo qhi leaves).
+Proof. exact interval_query_exact. Qed.
+Print Assumptions C15_interval_query_exact.
+
+(* the executable model run beside the real class (sorted by the GENERATED comparator) meets the specification *)
+Theorem C15_interval_model_exact : forall leaves qlo qhi, Permutation (itv_run leaves qlo qhi) (itv_spec qlo qhi leaves).
+Proof. exact itv_run_exact. Qed.
+Print Assumptions C15_interval_model_exact.
+
+Example ex_interval : itv_run [(0, 10, 1); (6, 7, 2); (20, 30, 3); (8, 8, 4); (-5, -1, 5)] 8 9 = [4; 1] /\
+  itv_spec 8 9 [(0, 10, 1); (6, 7, 2); (20, 30, 3); (8, 8, 4); (-5, -1, 5)] = [1; 4].
+Proof. split; vm_compute; reflexivity. Qed.
+
